@@ -5,7 +5,7 @@ SPECIFICATION Spec
 CONSTANTS
   Users = {"u1", "u2"}
   Chans = {"c1"}
-  Bodies = {"A", "B", "D", "E", "Z", "R", "Xdur"}
+  Bodies = {"A", "Ab", "B", "Cn", "D", "E", "Z", "R", "Xdur"}
   HdrKinds = {"cur", "curHex", "stale"}
   Vias = {"d", "b1:a1"}
   Creds = {"o1"}
@@ -15,6 +15,7 @@ CONSTANTS
   MaxSnap = 3
   MaxRestart = 3
   MaxInject = 1
+  MaxBattery = 2
   MaxCfg = 3
   FixedF5 = FALSE
   RecordHist = TRUE
